@@ -241,7 +241,7 @@ def check_case(case):
     info = {"problem": text, "domain": sexpr.flat(pddl.domain_tree(dom))}
     if errs:
         if okp:
-            only_goal_cond = all(e.startswith("goal-condition") for e in errs)
+            only_goal_cond = all(e in ("goal-condition-undeclared-object", "goal-condition-type") for e in errs)
             if only_goal_cond and ctx.active(F_K6):
                 res.known.append(F_K6)
             else:
